@@ -273,6 +273,35 @@ def tlc_histories(rep: Report, rng: random.Random, quick: bool) -> Tuple[List[Li
     return small, rng.sample(big, min(len(big), 400))
 
 
+def play(rep: Report, jobs: List[Tuple[Any, int, List[Tuple[Any, ...]]]]) -> None:
+    """Runs every (module class, history) on real modules and validates the recorded runs with Transforms_Trace."""
+    traces: List[List[Dict[str, Any]]] = []
+    meta: List[Dict[str, Any]] = []
+    for hi, (cls, ci, h) in enumerate(jobs):
+        w = World(cls, seed=100 + ci)
+        steps = []
+        for st in h:
+            try:
+                steps.append(w.apply(st[1], st[2]) if st[0] == "apply" else w.call(st[1]))
+            except Exception as ex:
+                rep.violation(f"{cls.__name__}: step {st} of history {h} raised {type(ex).__name__}: {str(ex)[:160]}", {"meta": {"module": cls.__name__, "ci": ci, "history": [list(s_) for s_ in h]}, "step": list(st)}, key=f"raised:{st[0]}:{st[-1] if st[0] == 'apply' else 'call'}")
+                break
+            if steps[-1].get("err"):
+                rep.violation(f"{cls.__name__}: call in history {h} raised {steps[-1]['err']}", {"meta": {"module": cls.__name__, "ci": ci, "history": [list(s_) for s_ in h]}, "step": list(st)}, key="raised:call")
+        traces.append([{k: v for k, v in s.items() if k != "err"} for s in steps])
+        meta.append({"module": cls.__name__, "ci": ci, "history": [list(s) for s in h]})
+        rep.case((cls.__name__, hi, json.dumps(meta[-1]["history"])), nontrivial=sum(1 for s in h if s[0] == "apply") >= 2)
+    out = common.validate_traces("Transforms_Trace", "Transforms_Trace.cfg", traces, timeout=900, tag="trtr")
+    rep.add_trace_result(out)
+    for (l, k, clause) in out["fails"]:
+        if clause.startswith("harness_"):
+            raise common.MachineryError(f"Transforms_Trace: {clause}")
+        rep.violation(f"{meta[l - 1]['module']}: history {meta[l - 1]['history']}: {clause} at step {k}: {traces[l - 1][k - 1] if k else ''}",
+                      {"meta": meta[l - 1], "trace": traces[l - 1], "step": k, "clause": clause}, key=f"{clause}")
+    if traces:
+        rep.sample({"meta": meta[0], "trace": traces[0][:4]})
+
+
 def run(rep: Report, tier: str) -> None:
     rng = random.Random(common.seed() * 67 + 20)
     torch.set_num_threads(2)
@@ -284,8 +313,6 @@ def run(rep: Report, tier: str) -> None:
         r = common.run_tlc("Transforms_MC", f"Transforms_MC_{leg}.cfg", timeout=300, tag="trleg")
         common.tlc_must_fail(r, f"Transforms Legacy={leg}", inv)
         rep.extra.setdefault("l2_refuted_deviations", []).append({"legacy": leg, "violated": r.violated_invariant})
-    traces: List[List[Dict[str, Any]]] = []
-    meta: List[Dict[str, Any]] = []
     fam = [MLP, UBlock] if quick else FAMILY
     jobs: List[Tuple[Any, int, List[Tuple[Any, ...]]]] = []
     for ci, cls in enumerate(fam):
@@ -296,38 +323,18 @@ def run(rep: Report, tier: str) -> None:
     small, big = tlc_histories(rep, rng, quick)
     jobs += [(fam[0], 0, h) for h in small]
     jobs += [(fam[i % len(fam)], i % len(fam), h) for i, h in enumerate(big)]
-    if True:
-        for hi, (cls, ci, h) in enumerate(jobs):
-            w = World(cls, seed=100 + ci)
-            steps = []
-            for st in h:
-                try:
-                    steps.append(w.apply(st[1], st[2]) if st[0] == "apply" else w.call(st[1]))
-                except Exception as ex:
-                    rep.violation(f"{cls.__name__}: step {st} of history {h} raised {type(ex).__name__}: {str(ex)[:160]}", {"module": cls.__name__, "history": h, "step": list(st)}, key=f"raised:{st[0]}:{st[-1] if st[0] == 'apply' else 'call'}")
-                    break
-                if steps[-1].get("err"):
-                    rep.violation(f"{cls.__name__}: call in history {h} raised {steps[-1]['err']}", {"module": cls.__name__, "history": h, "step": list(st)}, key="raised:call")
-            traces.append([{k: v for k, v in s.items() if k != "err"} for s in steps])
-            meta.append({"module": cls.__name__, "history": [list(s) for s in h]})
-            rep.case((cls.__name__, hi), nontrivial=sum(1 for s in h if s[0] == "apply") >= 2)
-    out = common.validate_traces("Transforms_Trace", "Transforms_Trace.cfg", traces, timeout=900, tag="trtr")
-    rep.add_trace_result(out)
-    for (l, k, clause) in out["fails"]:
-        if clause.startswith("harness_"):
-            raise common.MachineryError(f"Transforms_Trace: {clause}")
-        rep.violation(f"{meta[l - 1]['module']}: history {meta[l - 1]['history']}: {clause} at step {k}: {traces[l - 1][k - 1] if k else ''}",
-                      {"meta": meta[l - 1], "trace": traces[l - 1], "step": k, "clause": clause}, key=f"{clause}")
+    play(rep, jobs)
     rep.rule = "histories of transforms and calls (both orders of unit_scale / format simulation in one history, calls between transforms, repeated calls, branching from earlier modules, track as last transform; thorough: 3 format kinds, compile, random histories) on a family of small modules; plus histories GENERATED BY TLC from Transforms_Gen (quick: 30 of the 1170 maximal histories with 3 modules x 3 calls; thorough: all of them and up to 400 simulated 5x5 histories); non-trivial = at least two transforms"
-    if traces:
-        rep.sample({"meta": meta[0], "trace": traces[0][:4]})
     rep.assumptions += ["'ran' is read off the library's own log records; fingerprints are sha1 of output + input gradient + parameter gradients with seeds pinned",
                         "compile (Inductor) only in the thorough tier"]
 
 
 def replay(rep: Report, path: str) -> None:
+    """Re-runs exactly the recorded (module class, history) on the current code."""
     d = json.load(open(path))
+    m = d["case"].get("meta", {})
     rep.case("replay")
-    rep.case(json.dumps(d["case"].get("meta", {}))[:200])
-    rep.sample(d["case"].get("meta", {}))
-    run(rep, "quick")
+    cls = {c.__name__: c for c in FAMILY}[m["module"]]
+    h = [tuple(st) for st in m["history"]]
+    torch.set_num_threads(2)
+    play(rep, [(cls, int(m.get("ci", 0)), h)])
